@@ -292,6 +292,11 @@ func (pc *ProviderCache) Refresh(ctx context.Context) error {
 
 		// Collect latest info on each provider.
 		for _, fetchedInfo := range fetchedInfos {
+			if fetchedInfo == nil {
+				// A source may hand back a list with empty entries (the HTTP
+				// source does for a JSON list that contains null).
+				continue
+			}
 			pid := fetchedInfo.AddrInfo.ID
 			cinfo, ok := pc.write[pid]
 			if !ok {
